@@ -191,6 +191,11 @@ def classify_parse_failure(methods, err):
 
 
 def classify_diff(methods, problems):
+    ov = [(m[1], m[2]) for m in methods if m[0] == "override_abi" and len(m) >= 3]
+    if len(set(a for a, _ in ov)) >= 2 and any("differ" in p_ or "different bindings" in p_ for p_ in problems) and not any("do not round-trip" in p_ for p_ in problems):
+        # (all sampled patterns match `fn_plain`) two overrides with different ABIs for the same function: which one applies follows the
+        # iteration order of the per-ABI map, and that order is not preserved by the round trip
+        return "c13.ambiguous-override-abi-follows-map-order"
     for m in methods:
         if m[0] == "default_enum_style" and m[1:] == ["newtype_global"]:
             return "c13.newtype-global-default-style"
